@@ -155,7 +155,12 @@ fn inject(m: &mut Machine, w: &Workload, q: &str, n: u64, base: &Base) -> (InjOu
     let mut fired = 0;
     let o = run_first(m, q, &mut || interrupt::arm_at_poll(n), &mut || {
         fired = interrupt::fired();
-        interrupt::disarm();
+        // the hook disarms itself when it fires; `disarm()` would also clear the INTERRUPT flag, which
+        // the machine must have consumed itself when it threw — a flag left raised has to show up
+        // as an interrupted follow-up query
+        if fired == 0 {
+            interrupt::disarm();
+        }
     });
     let outcome = o.short();
     let dead = matches!(o, QOut::Panic(_));
@@ -266,6 +271,8 @@ fn inject(m: &mut Machine, w: &Workload, q: &str, n: u64, base: &Base) -> (InjOu
             }
         }
     }
+    // housekeeping for the next injection (after the follow-ups have been judged)
+    interrupt::disarm();
     let interior = n > 0 && n + 1 < base.polls;
     classes.push(if interior { "poll:interior".into() } else { "poll:first-or-last".into() });
     (InjOut { n, ns: vec![n], fired, outcome, mark: mark.clone(), sig, detail, classes, nontrivial: fired > 0 && mark == "in" && interior }, usable)
